@@ -606,6 +606,8 @@ pub struct Gen {
     pub long_key: Vec<u8>,
     pub conn: usize,
     pub queue: std::collections::VecDeque<Ev>,
+    /// scripted histories emitted so far (each works on a key of its own)
+    pub scripted: u32,
 }
 
 impl Gen {
@@ -622,6 +624,7 @@ impl Gen {
             cas_seen: HashMap::new(),
             steps_left: steps,
             pending_dump: false,
+            scripted: 0,
             stats: HashMap::new(),
             long_key,
             conn: 0,
@@ -961,6 +964,26 @@ impl Gen {
             let d = *self.rng.pick(&[1u64, 1, 1, 2, 3, 4, 5, 10, 2592000, 0]);
             self.pending_dump = true;
             return Some(Ev::Tick(d));
+        }
+        if fl == "flush" && self.rng.chance(1, 10) {
+            // a scripted history: a delayed flush, then a conditional store to a key that does
+            // not exist (such a store takes no value from the CAS counter), then a second
+            // delayed flush that is not shorter, then the clock reaches its deadline: the item
+            // stored between the two is gone then, like everything stored before a flush
+            self.count("two_delayed_flushes_around_a_cas_store");
+            self.scripted += 1;
+            let key = format!("fk{}", self.scripted).into_bytes();
+            let d1 = 1 + self.rng.below(4) as u32;
+            let d2 = d1 + self.rng.below(3) as u32;
+            let c = 1 + self.rng.below(3);
+            let v = self.rng.bytes(3);
+            self.queue.push_back(Ev::Chunk(self.conn, gen::set_like(op::SET, &key, &v, 1, 0).cas(c).bytes()));
+            self.queue.push_back(Ev::Dump);
+            self.queue.push_back(Ev::Chunk(self.conn, gen::flush(op::FLUSH, Some(d2)).bytes()));
+            self.queue.push_back(Ev::Tick(d2 as u64));
+            self.queue.push_back(Ev::Chunk(self.conn, Req::new(op::GET).key(&key).bytes()));
+            self.pending_dump = true;
+            return Some(Ev::Chunk(self.conn, gen::flush(op::FLUSH, Some(d1)).bytes()));
         }
         let nreq = 1 + if self.rng.chance(if fl == "big" { 2 } else { 1 }, 4) { self.rng.below(4) as usize } else { 0 };
         let mut bytes = Vec::new();
